@@ -275,7 +275,7 @@ func dirBlockCase(c *hx.Ctx, id string, blk []byte, bs int) {
 		c.Stat("dirblock-refused")
 	default:
 		live := "!"
-		if tilesStrict(blk) {
+		if len(blk) == bs && tilesStrict(blk) { // the SPEC walk is over a whole block of the block size
 			live = dirEntStr(es, true)
 		}
 		c.Impl(id, "ok", "es="+dirEntStr(es, false), "live="+live)
